@@ -482,6 +482,56 @@ def _ops():
         one = [getattr(optree.register_pytree_node.get(c, namespace=s.ns if s.ns else GLOBAL), 'namespace', None) for c in U.CUSTOM_CLASSES]
         return (mine, one, sorted(k.__name__ for k in table if k in (list, dict, tuple)))
 
+    @op('transpose_map_with_accessor')
+    def _(s):
+        return optree.tree_transpose_map_with_accessor(lambda a, x: s.f_pair(x), s.tree, is_leaf=s.pred, **s.kw)
+
+    @op('broadcast_map_with_accessor')
+    def _(s):
+        return optree.tree_broadcast_map_with_accessor(s.fpath, s.prefix, s.tree, **s.kw)
+
+    @op('reductions')
+    def _(s):
+        def key(x):
+            U._h('map_fn')
+            return 0
+
+        class Acc:
+            __slots__ = ('items',)
+
+            def __init__(a, items=()):
+                a.items = items
+
+            def __add__(a, x):
+                U._h('map_fn')
+                return Acc(a.items + (x,))
+
+        return (optree.tree_sum(s.tree, Acc(), is_leaf=s.pred, **s.kw).items,
+                optree.tree_max(s.tree, default=None, key=key, is_leaf=s.pred, **s.kw),
+                optree.tree_min(s.tree, default=None, key=key, is_leaf=s.pred, **s.kw),
+                optree.tree_any(s.tree, is_leaf=s.pred, **s.kw))
+
+    @op('treespec_funcs')
+    def _(s):
+        sp = s.spec
+        n = sp.num_children
+        return (optree.treespec_paths(sp), optree.treespec_accessors(sp), optree.treespec_entries(sp), optree.treespec_children(sp),
+                optree.treespec_one_level(sp), [optree.treespec_entry(sp, i) for i in range(-n, n)],
+                [optree.treespec_child(sp, i) for i in range(-n, n)], optree.treespec_is_leaf(sp), optree.treespec_is_leaf(sp, strict=False),
+                optree.treespec_is_strict_leaf(sp), optree.treespec_is_one_level(sp), optree.treespec_is_prefix(s.prefix_spec, sp),
+                optree.treespec_is_suffix(sp, s.prefix_spec, strict=True), optree.treespec_is_prefix(sp, s.other_spec))
+
+    @op('constructors')
+    def _(s):
+        a, b, c = s.spec, s.prefix_spec, s.other_spec
+        kw = s.kw
+        return (optree.treespec_none(**kw), optree.treespec_leaf(**kw), optree.treespec_namedtuple(U.NT1(a, b), **kw), optree.treespec_namedtuple(U.NT0(), **kw),
+                optree.treespec_structseq(U.make_structseq([a, b, c, a, b, c, a, b, c]), **kw),
+                optree.treespec_ordereddict([(U.Key(2), a), (U.Key(1), b)], **kw), optree.treespec_ordereddict({'z': c}, y=b, **kw),
+                optree.treespec_defaultdict(list, {U.Key(2): a, U.Key(1): c}, **kw), optree.treespec_defaultdict(None, x=a, **kw),
+                optree.treespec_deque([a, c], maxlen=3, **kw), optree.treespec_deque((), **kw),
+                optree.treespec_dict({'b': b, 'a': a}, **kw), optree.treespec_dict([(U.Key(1), a)], k=b, **kw))
+
     @op('compose')
     def _(s):
         return s.prefix_spec.compose(s.other_spec)
